@@ -29,6 +29,23 @@ def _moved_into_dbinner(ctx, fn, root):
     return False
 
 
+def _derives_from_metadata(ctx, fn, operand, callers, depth=0):
+    """does the operand data-depend on File::metadata / Metadata::len, looking through the parameters of the functions on the trace context?"""
+    du = ctx.du(fn)
+    _, atoms = du.slice_operand(operand)
+    if any(a[0] == 'call' and a[2] in ('std::fs::File::metadata', 'std::fs::Metadata::len') for a in atoms):
+        return True
+    if not callers or depth > 4:
+        return False
+    cfn, cbb = callers[-1][0], callers[-1][1]
+    ct = cfn.term(cbb)
+    for a in atoms:
+        if a[0] == 'arg' and a[1] - 1 < len(ct['args']):
+            if _derives_from_metadata(ctx, cfn, ct['args'][a[1] - 1], callers[:-1], depth + 1):
+                return True
+    return False
+
+
 def run(ctx, tier):
     results = []
     F = ctx.facts
@@ -92,6 +109,34 @@ def run(ctx, tier):
                                'and maps a short or uninitialised file' % ('growth' if w['ev'] == 'G' else 'write', w['loc']), where=w['loc'], path=T.describe_path(p or [])))
         else:
             results.append(ok(rule, '%s at %s is dominated by a successful lock_exclusive' % (w['ev'], w['loc']), sites=1))
+    # ---- observe-after-lock: what open learns about the file (its length, its bytes) must be learnt while the lock is held
+    rule = 'C13.observe-after-lock'
+    Os = [e for e in T.events('O') if not e.get('summary')]
+    for o in Os:
+        if o['node'] in reach_wo:
+            p = T.path(start, o['node'], avoid=okn)
+            results.append(bad(rule, '%s | %s before the lock' % (op.qual, last_seg(o['callee'])),
+                               'open reads the state of the file (%s at %s) before it holds the exclusive lock: the process that holds the database can still grow or rewrite the file, '
+                               'so what was read is stale by the time the lock is granted' % (o['callee'], o['loc']), where=o['loc'], path=T.describe_path(p or [])))
+        else:
+            results.append(ok(rule, '%s at %s happens under the lock' % (o['callee'], o['loc']), sites=1))
+    # an explicit map length must come from such an observation (the default -- memmap2 stats the file at map time -- is fresh by construction)
+    nlen = 0
+    for n in T.nodes:
+        if n.bb is None or n.virt:
+            continue
+        t = n.fn.term(n.bb)
+        c = callee_of(t) if t['k'] == 'call' else None
+        if not c or strip_generics(c['path']) not in ('memmap2::MmapOptions::len', 'memmap2::MmapOptions::offset'):
+            continue
+        nlen += 1
+        fresh = _derives_from_metadata(ctx, n.fn, t['args'][-1], list(n.ctx))
+        if not fresh or any(o['node'] in reach_wo for o in Os):
+            results.append(bad(rule, '%s | map length not read under the lock' % n.fn.qual,
+                               'the memory map created while opening gets an explicit %s at %s that is not read from the file after the lock was acquired (a value computed earlier, '
+                               'or from the options): if another process grew the file meanwhile, the map is too short' % (last_seg(c['path']), n.loc()), where=n.loc()))
+    if not any(not r.ok for r in results if r.rule == rule):
+        results.append(ok(rule, 'open observes the file only under the lock (%d observations) and passes no explicit length to the map (%d)' % (len(Os), nlen), sites=len(Os) + 1))
     # ---- lock-lives
     rule = 'C13.lock-lives'
     for e in good:
